@@ -475,9 +475,18 @@ func (m *UDPMuxDefault) clearWriteDeadlineAfterAbort(writeErr error) error {
 func (m *UDPMuxDefault) clearWriteAbortState() {
 	for {
 		state := m.writeState.Load()
-		newState := state &^ (udpMuxWriteBlockedBit | udpMuxWriteDeadlineBit)
-		if state == newState {
+		if state&udpMuxWriteBlockedBit == 0 {
 			return
+		}
+
+		newState := state &^ (udpMuxWriteBlockedBit | udpMuxWriteDeadlineBit)
+		if state&udpMuxWriteCountMask == 0 {
+			// The last in-flight writer already left and is waiting in
+			// clearWriteDeadlineAfterAbort. Let it finish this abort instead of
+			// clearing blocked underneath it: a waiter that misses the cleared
+			// bit would otherwise act on a later abort and reset writeState
+			// while that abort's deadline is still armed.
+			newState = state | udpMuxWriteDeadlineBit
 		}
 		if m.writeState.CompareAndSwap(state, newState) {
 			return
